@@ -25,12 +25,12 @@ REG = {
         "relevant": ["contains", "guard", "infer-path", "infer-outcome", "detect-path", "relation-missing"],
     },
     "C03": {
-        "modules": ["VProofs.Props.C03", "VProofs.Props.Pandas", "VProofs.Props.Numpy", "VProofs.Props.PyListRel", "VProofs.Props.NumpyTotalProps", "VProofs.Props.Shapes"],
+        "modules": ["VProofs.Props.C03", "VProofs.Props.Pandas", "VProofs.Props.Numpy", "VProofs.Props.PyListRel", "VProofs.Props.NumpyTotalProps", "VProofs.Props.Shapes", "VProofs.Props.PyListTotal"],
         "theorems": thms("C03", ["C03_infer_sound", "C03_lands_step", "C03_lands_pandas"])
                     + ["V.Pd.pandas_WF", "V.Pd.outputs_good", "V.Pd.goodB_sound", "V.Pd.built_typeset", "V.PandasProps.C03_pandas", "V.PandasProps.C03_pandas_model",
                        "V.PandasProps.infer_pandas_complete",
                        "V.Np.numpy_WF", "V.Np.lands_closed_np", "V.NumpyProps.C03_numpy", "V.NumpyProps.C03_numpy_model",
-                       "V.PyProps.C03_lands_list", "V.NumpyProps.infer_numpy_complete"] + ["V.Shapes.shapes_match"],
+                       "V.PyProps.C03_lands_list", "V.NumpyProps.infer_numpy_complete", "V.PyProps.infer_list_complete"] + ["V.Shapes.shapes_match"],
         "runners": ["pandas", "numpy", "list", "frame", "api", "algebra"],
     },
     "C04": {
@@ -87,13 +87,14 @@ REG = {
         "partial": "string encodings rest on the element parsers (data of the model); the full grid of families x encodings x null patterns is explored by the family runner on the real code",
     },
     "C09": {
-        "modules": ["VProofs.Props.C09", "VProofs.Props.NumpyMore", "VProofs.Props.Shapes", "VProofs.Props.NumpyTotalProps", "VProofs.Props.PyListRel"],
+        "modules": ["VProofs.Props.C09", "VProofs.Props.NumpyMore", "VProofs.Props.Shapes", "VProofs.Props.NumpyTotalProps", "VProofs.Props.PyListRel", "VProofs.Props.PyListTotal"],
         "theorems": thms("C09", ["C09_total", "C09_contains_total_pandas", "C09_generic_catch_all",
                                  "C09_detect_total_pandas", "C09_total_guards", "C09_total_xforms", "C09_witness_F29",
                                  "C09_infer_total_pandas", "C09_hypotheses_executable"])
                     + ["V.Pd.infer_total", "V.Pd.guardsOk_of_outCol", "V.Pd.outputs_good", "V.traverse_total_inv",
                        "V.NumpyProps.C09_contains_total_numpy", "V.NumpyProps.C09_generic_numpy", "V.NumpyProps.C09_guards_total_numpy",
-                       "V.Np.guardsOkNB_sound", "V.Np.guardsOk_terminal", "V.Np.terminal_of_lands", "V.Np.infer_total_np", "V.NumpyProps.infer_numpy_complete", "V.PyProps.C09_tests_total_list"] + ["V.Shapes.shapes_match"],
+                       "V.Np.guardsOkNB_sound", "V.Np.guardsOk_terminal", "V.Np.terminal_of_lands", "V.Np.infer_total_np", "V.NumpyProps.infer_numpy_complete", "V.PyProps.C09_tests_total_list",
+                       "V.PyProps.xform_total_list", "V.PyProps.infer_total_list", "V.PyProps.infer_list_complete"] + ["V.Shapes.shapes_match"],
         "runners": ["pandas", "numpy", "list", "exotic", "api"],
         "relevant": ["contains", "guard", "xform-outcome", "infer-outcome", "detect-outcome", "relation-missing"],
     },
